@@ -1,5 +1,7 @@
 #![allow(dead_code, unused_mut)]
 mod c01;
+mod c03;
+mod c05;
 mod c08;
 mod c09;
 mod c10;
@@ -67,7 +69,9 @@ fn main() {
                     o.assume("alphabet and size values listed under coverage.alphabet; histories deeper than the completed depth are not covered");
                     o
                 }
+                "C03" => c03::run(&ctx),
                 "C04" => t1props::run_c04(&ctx),
+                "C05" => c05::run(&ctx),
                 "C06" => t1props::run_c06(&ctx),
                 "C17" => t1props::run_c17(&ctx),
                 "C08" => c08::run(&ctx),
@@ -93,6 +97,10 @@ fn main() {
             println!("replaying {} (property {}, rule {})", h, v["property"], v["rule"]);
             let violated = if h.starts_with("c11.") {
                 c11::replay(&v)
+            } else if h.starts_with("x2.client-limit") || h.starts_with("x2.server-limit") {
+                c05::replay(&v).unwrap_or(false)
+            } else if h.starts_with("x2.receiver") {
+                c03::replay(&v).unwrap_or(false)
             } else if h.starts_with("x2.sender") {
                 let prop: &'static str = if v["property"].as_str() == Some("C02") { "C02" } else { "C16" };
                 c16::replay(&v, prop).unwrap_or(false)
